@@ -117,6 +117,11 @@ func editCatalogue() []editClass {
 	})
 	entP("serial-set", func(r *Rng, t *EntitySpec) { t.Serial = 0 }, func(r *Rng, n *EntitySpec) { n.Serial = 1 + r.I64n(1<<50) })
 	entP("serial-change", func(r *Rng, t *EntitySpec) { t.Serial = 77 }, func(r *Rng, n *EntitySpec) { n.Serial = 78 })
+	entP("serial-high-bits", func(r *Rng, t *EntitySpec) { t.Serial = 1 + r.I64n(1000) }, func(r *Rng, n *EntitySpec) { n.Serial += Pick(r, []int64{1 << 8, 1 << 16, 1 << 31, 1 << 32, 1 << 40}) })
+	ent("subject-case-only", func(r *Rng, t, n *EntitySpec) {
+		n.Subject[len(n.Subject)-1].V = toggleCase(n.Subject[len(n.Subject)-1].V)
+	})
+	ent("subject-inner-blank", func(r *Rng, t, n *EntitySpec) { n.Subject[len(n.Subject)-1].V += " x" })
 	entP("issuer-unique-id", func(r *Rng, t *EntitySpec) { t.IssUID = "" }, func(r *Rng, n *EntitySpec) { n.IssUID = "!binary:" + b64(r.Bytes(5)) })
 	entP("subject-unique-id", func(r *Rng, t *EntitySpec) { t.SubUID = "!binary:AQID" }, func(r *Rng, n *EntitySpec) { n.SubUID = "!binary:AQIE" })
 	entP("key-algorithm", func(r *Rng, t *EntitySpec) { t.KeyAlg = "P-256" }, func(r *Rng, n *EntitySpec) { n.KeyAlg = Pick(r, []string{"P-384", "P-224", "brainpoolP256r1"}) })
@@ -673,7 +678,19 @@ func leafEdit(r *Rng, raw json.RawMessage) (json.RawMessage, bool) {
 		var nv any
 		switch v := s.cur.(type) {
 		case string:
-			nv = v + "x"
+			// an appended character, a case-only change or a trailing blank: normalisation before
+			// hashing (trim, case folding) must not hide an edit the certificate carries verbatim
+			switch r.Intn(4) {
+			case 0:
+				nv = toggleCase(v)
+			case 1:
+				nv = v + " "
+			default:
+				nv = v + "x"
+			}
+			if nv == v {
+				nv = v + "x"
+			}
 			for _, set := range enumSets {
 				for _, m := range set {
 					if m == v {
@@ -697,8 +714,9 @@ func leafEdit(r *Rng, raw json.RawMessage) (json.RawMessage, bool) {
 				nv = "!binary:AQIDBA=="
 			}
 		case json.Number:
+			// differences confined to high bits as well: a narrower type on the hashing side collides
 			n, _ := v.Int64()
-			nv = n + 1
+			nv = n + Pick(r, []int64{1, 1, 256, 65536, 1 << 32})
 		case bool:
 			nv = !v
 		case []any:
@@ -737,4 +755,19 @@ func bumpLastNumber(s string, mod int) string {
 	i := strings.LastIndex(s, ".")
 	n, _ := strconv.Atoi(s[i+1:])
 	return s[:i+1] + strconv.Itoa((n+1)%mod)
+}
+
+func toggleCase(s string) string {
+	b := []byte(s)
+	for i, c := range b {
+		switch {
+		case c >= 'a' && c <= 'z':
+			b[i] = c - 32
+			return string(b)
+		case c >= 'A' && c <= 'Z':
+			b[i] = c + 32
+			return string(b)
+		}
+	}
+	return s
 }
